@@ -22,6 +22,31 @@ def plans(tier):
     return P
 
 
+def linearizability(chk, sd, binp_unused):
+    """concurrent clause: admin actors + clients in real parallel on the real balancer; TLC searches for a
+    linearization of every distinct history (spec/Lin.tla)"""
+    import os, json, cases
+    tier = chk.tier
+    binp = vlib.go_build("linsim", "internal/zz_verif/linsim", ["linsim/main.go"], sd)
+    cs, r = cases.enumerate_cases("GenLin", "GenLin.cfg", env={"TIER": tier})
+    chk.add_tlc("concurrent admin/traffic cases (spec/Lin.tla)", r)
+    reps = 40 if tier == "thorough" else 6
+    tp = cases.execute(binp, cs, sd, "lin", timeout=3000, extra_args=[str(reps)])
+    st = json.load(open(tp + ".ok"))
+    chk.cov["concurrent_histories_run"] = st["histories"]
+    chk.cov["concurrent_histories_distinct"] = st["distinct"]
+    chk.cov["traces_validated_against_impl"] += st["distinct"]
+    for c in cs:
+        chk.count_case(["lin", json.dumps(c, sort_keys=True)])
+
+    def sig(clause, e):
+        kinds = sorted({o["k"] + ":" + (o["name"] or o["s"]) for o in e["o"]["ops"] if o["k"] not in ("req", "list")})
+        return {"clause": clause, "class": "concurrent", "strategy": e["c"]["strategy"], "ops": ",".join(kinds)}
+    cases.judge(chk, "ObsLinTrace", "ObsLinTrace.cfg", tp, sig, "lin", timeout=3000)
+    with open(tp) as fh:
+        chk.sample({"concurrent_history": json.loads(fh.readline())})
+
+
 def run(tier):
     return pc.run_check("C11", tier, ("C11",), plans(tier), clauses={"RemoveGone", "DispatchToUnknown", "Spurious503"},
-                        alias={"switch", "switch3"})
+                        alias={"switch", "switch3"}, extra=linearizability)
